@@ -140,6 +140,7 @@ def cases(unit, tier):
         yield ["custom", 2]
         for k in range(6):
             yield ["ioerror", k]
+        yield ["shared-message"]
     else:
         yield ["real", 0]
 
@@ -264,6 +265,24 @@ def _has_set(x):
     return False
 
 
+class _StrIOBase(io.IOBase):
+    """An application's own text sink: an io.IOBase (so it has flush/close/context manager) whose
+    write() takes str; it is not an io.TextIOBase."""
+
+    def __init__(self):
+        io.IOBase.__init__(self)
+        self.chunks = []
+
+    def writable(self):
+        return True
+
+    def write(self, data):
+        if not isinstance(data, str):
+            raise TypeError("str required")
+        self.chunks.append(data)
+        return len(data)
+
+
 class _Wrap(object):
     """Application file-like object delegating to whatever it wraps."""
 
@@ -300,6 +319,41 @@ def run_case(case):
         v2, _ = check_one(msg, dict(BASE, v=exp), caller_default)
         viol += [("caller-default:" + s, d) for s, d in v2]
         return Result(outcome=text, violations=[(s, dict(d, value=repr(v)[:120])) for s, d in viol[:3]])
+    if case[0] == "shared-message":
+        # one message object offered to several file destinations with different json_default, and the
+        # same dictionary changed and offered again: every line is the encoding of what was offered,
+        # by the destination's own default
+        viol = []
+        fa, fb, fc = RecBinary(), RecBinary(), RecText()
+        da = FileDestination(file=fa)
+        db = FileDestination(file=fb, json_default=overriding_default)
+        dc = FileDestination(file=fc, json_default=caller_default)
+        for f in (fa, fb, fc):
+            f.calls[:] = []
+        msg = dict(BASE, p=Path("/x"), s={1}, n=1)
+        for d in (da, db, dc, da):
+            try:
+                d(msg)
+            except Exception as e:
+                viol.append(("shared-message:destination-raised", {"error": repr(e)[:200]}))
+        msg["n"] = 2
+        da(msg)
+
+        def lines(f, binary=True):
+            data = [c[1] for c in f.calls if c[0] == "write" and c[1]]
+            text = b"".join(data).decode("utf-8") if binary else "".join(data)
+            return [json.loads(l) for l in text.split("\n") if l]
+
+        la, lb, lc = lines(fa), lines(fb), lines(fc, False)
+        want_a = [dict(BASE, p="/x", s=[1], n=1)] * 2 + [dict(BASE, p="/x", s=[1], n=2)]
+        want_b = [dict(BASE, p={"path": "/x"}, s={"set": [1]}, n=1)]
+        if la != want_a:
+            viol.append(("shared-message:default-destination-lines", {"got": repr(la)[:300]}))
+        if lb != want_b:
+            viol.append(("shared-message:overriding-default-destination-lines", {"got": repr(lb)[:300]}))
+        if lc != want_a[:1]:
+            viol.append(("shared-message:text-destination-lines", {"got": repr(lc)[:300]}))
+        return Result(outcome=["shared-message", len(viol)], violations=viol[:3])
     if case[0] == "ioerror":
         # the file's flush() (k < 3) or write() (k >= 3) fails once with a transient error: whatever the
         # destination does about it, no message may end up in the file twice or torn
@@ -369,7 +423,7 @@ def run_case(case):
                     viol.append(("partial-write-before-raising", {"calls": repr(f.calls)[:200]}))
             text = None
         return Result(outcome=text, violations=viol[:3])
-    # real files: BytesIO, StringIO, disk files in both modes, same-class files of both modes, through to_file; files whose write()/flush() fails once with a transient OSError
+    # real files: BytesIO, StringIO, disk files in both modes, same-class files of both modes, through to_file; files whose write()/flush() fails once with a transient OSError; one message object offered to destinations with different json_default and re-offered after a change
     viol = []
     msgs = [dict(BASE, v=value(i), n=i) for i in range(0, len(values()), 97)]
     tmp = tempfile.mkdtemp(prefix="vk_c10_", dir="/var/tmp")
@@ -386,6 +440,11 @@ def run_case(case):
         ntb = tempfile.NamedTemporaryFile("wb", dir=tmp, delete=False)
         ntt = tempfile.NamedTemporaryFile("w", encoding="utf-8", dir=tmp, delete=False)
         wt, wb = _Wrap(io.StringIO()), _Wrap(io.BytesIO())
+        # text-mode files that are io.IOBase objects without being io.TextIOBase ones
+        spool = tempfile.SpooledTemporaryFile(mode="w", encoding="utf-8", newline="", dir=tmp)
+        iob = _StrIOBase()
+        eliot.to_file(spool)
+        eliot.to_file(iob)
         eliot.to_file(ntb)
         eliot.to_file(ntt)
         eliot.to_file(wt)
@@ -415,6 +474,8 @@ def run_case(case):
         contents = {
             "NamedTemporaryFile(wb)": open(ntb.name, "rb").read().decode("utf-8"),
             "NamedTemporaryFile(w)": open(ntt.name, "r", encoding="utf-8", newline="").read(),
+            "SpooledTemporaryFile(w)": (spool.seek(0), spool.read())[1],
+            "io.IOBase subclass taking str": "".join(iob.chunks),
             "wrapper(StringIO)": wt.f.getvalue(),
             "wrapper(BytesIO)": wb.f.getvalue().decode("utf-8"),
             "codecs.open": open(os.path.join(tmp, "c1.log"), "rb").read().decode("utf-8"),
